@@ -882,6 +882,30 @@ func (p *Pager) RestartWAL(salt1, salt2 uint32) {
 	p.walFrames = 0
 }
 
+// AttachWAL sets the writer state the way a connection that opens the database does (SQLite's
+// walIndexRecover): an existing log is continued after its last committed frame; an empty, missing or
+// invalid log starts a new generation with the given salts.
+func (p *Pager) AttachWAL(salt1, salt2 uint32) {
+	b, _ := os.ReadFile(p.DB.WALPath())
+	frames, ps, ok := ReadWALValid(b)
+	last := -1
+	for i, f := range frames {
+		if f.Commit != 0 {
+			last = i
+		}
+	}
+	if !ok || ps != p.PageSize || last < 0 {
+		p.RestartWAL(salt1, salt2)
+		return
+	}
+	p.BigEndianWAL = binary.BigEndian.Uint32(b[0:]) == 0x377f0683
+	p.walSalt1, p.walSalt2 = binary.BigEndian.Uint32(b[16:]), binary.BigEndian.Uint32(b[20:])
+	h := b[frames[last].Offset : frames[last].Offset+24]
+	p.walCk1, p.walCk2 = binary.BigEndian.Uint32(h[16:]), binary.BigEndian.Uint32(h[20:])
+	p.walFrames = last + 1
+	p.walInit = true
+}
+
 // WriteWALFrames appends frames (the last one with commit != 0 if commitSize != 0).
 // split: write the 24-byte header and the body as two writes.
 func (p *Pager) WriteWALFrames(frames []WALFrameSpec, commitSize uint32, split bool) error {
